@@ -22,16 +22,17 @@ GeometryFactory<TGeomImpl, TProjection> (every instantiation of drivers/geom.cpp
         constants is reported under the separate key `#sentinel-constant`.
  W1-wrapper-forwards         linestring_start/finish, polygon_start/finish call the same-named back-end method exactly
         once on every path, pass their parameter on and return its result.
- T1-create-protocol          create_linestring / create_polygon / create_multipolygon drive the back end through the
-        protocol automaton  start (add_location)* finish  resp.  multipolygon_start ( polygon_start outer_ring_start add*
+ T1-create-protocol          create_linestring / create_polygon / create_multipolygon (helpers they call are explored from the
+        current protocol state with their arguments bound) drive the back end through the protocol automaton  start (add_location)* finish  resp.  multipolygon_start ( polygon_start outer_ring_start add*
         outer_ring_finish ( inner_ring_start add* inner_ring_finish )* polygon_finish )+ multipolygon_finish  on every normal
         CFG path (abstract interpretation of the CFG over protocol state x {0, >=1} values of the local counters, so the
         `num_polygons > 0` / `num_rings == 0` branches are followed exactly); the count handed to `*_finish` is the value
         returned by the fill call of that path; the returned object is the result of the finish call; a geometry_error is
         thrown only while no ring has been emitted.
  D1-direction-and-uniqueness-dispatch   for each of the 8 required combinations {linestring, polygon} x {unique, all} x
-        {forward, backward} there is a call site, reached exactly under that combination of the `un` / `dir` parameters,
-        that calls the `_unique` variant iff unique and passes (c)begin/(c)end resp. (c)rbegin/(c)rend -- in that order --
+        {forward, backward} the CFG (of create_* and the helpers it hands its options to) is walked with the two parameters
+        set to that combination -- branches and switches over them are followed exactly -- and every fill call that can
+        execute calls the `_unique` variant iff unique and passes (c)begin/(c)end resp. (c)rbegin/(c)rend -- in that order --
         of the SAME list.
  D2-reverse-iterators        NodeRefList::crbegin wraps cend(), crend wraps cbegin().
  G1-degenerate-threshold     the finish call is reached iff counter >= 2 (linestring) / >= 4 (polygon) -- decided for all
@@ -40,32 +41,33 @@ GeometryFactory<TGeomImpl, TProjection> (every instantiation of drivers/geom.cpp
  P1-checked-accessors        IdentityProjection / MercatorProjection::operator() and Coordinates(Location) read the location
         only through Location::lon() / lat() (x from lon, y from lat); lon()/lat() return only when valid() held and throw
         invalid_location otherwise.
-Back ends
- X1-axis-order               every WKB encoder of a Coordinates pushes exactly two doubles, .x then .y of its parameter;
-        Coordinates::append_to_string writes x, infix, y.
- B1-backpatch-offset-pairing for each of the 6 WKB levels (linestring, polygon, multipolygon, multipolygon_polygon,
-        multipolygon_outer_ring, multipolygon_inner_ring) the start method stores the position of a 4-byte zero count
-        placeholder in a member and the matching finish passes exactly that member to set_size, once, on every path.
- B2-backpatch-counter        the count passed is the finish parameter (linestring, polygon) or a member that the level's
-        start resets to 0, that each child event increments exactly once, and that nothing else writes.
- B3-nested-slots-distinct    offset (and counter) members of levels that are open at the same time are distinct.
- B4-set_size-patches-uint32  set_size range-checks against UINT32_MAX (throws geometry_error) and copies sizeof(uint32_t)
-        bytes of the narrowed value to &m_data[offset].
- B5-header-layout            header(): byte order, type (| SRID flag + srid for EWKB) are pushed before the returned offset
-        is taken, the offset is str.size(), and the only push after it is the uint32 zero under `add_length`; every
-        header(..., true) result is stored or patched; geometry type constants follow the OGC table.
- B6-start-resets-buffer      the three top level start methods of every back end reset the accumulation buffer (clear /
-        assignment) before appending (an exception between start and finish leaves stale content behind).
- B7-patch-before-handover    WKB finish: set_size precedes the swap that hands m_data over; hex output iff out_type::hex.
- S1-text-nesting-grammar     WKT and GeoJSON: the string transformers of all 13 back-end methods are extracted from the
-        CFG (assign / append literal / append_to_string / back() = c / swap / return) and composed along every protocol
-        sequence up to 2 polygons x 2 inner rings x 2 points; the resulting token string must parse, with an independent
-        reference grammar, into exactly the nested structure that was fed in (brackets balanced, one separator between
-        siblings, none dangling, the right geometry keyword, precision taken from m_precision).
+Back ends -- decided by ABSTRACT RUNS: the methods of a back end are interpreted by the model interpreter of c17_util over
+abstract strings (literal characters, typed binary fields, symbolic coordinates) along every protocol sequence up to 2 polygons
+x 2 inner rings x 2 points, in every configuration (WKB/EWKB x binary/hex; with / without SRID prefix), on a fresh object, as the
+second geometry on the same object and after a geometry that was abandoned by an exception; the returned token stream is decoded
+by an independent reference decoder (OGC 99-049 WKB / EWKB, WKT, RFC 7946) and must yield exactly the structure that was fed in.
+Calls of helpers whose body is in the fact base are interpreted too, so extracting / inlining a helper, naming a sub-expression,
+early return vs ?: and the like make no difference.  Failures are classified by what the decoder rejects:
+ B1-wkb-counts-match-elements   every count field (points, rings, polygons) equals the number of elements that follow, every
+        back-patch lands exactly on a 4 byte count placeholder, nothing is left in / missing from the buffer (this subsumes the
+        offset-member pairing, the counter reset / increment discipline, the distinct slots of nested levels, set_size writing
+        4 bytes at &m_data[offset] and patching before the buffer is handed over).
+ B5-header-layout            byte order mark, OGC geometry type code of the geometry kind, SRID flag and srid exactly for EWKB.
+ X1-axis-order               every point is two 8 byte doubles, x then y of the same coordinates; Coordinates::append_to_string
+        (interpreted with double2string as a primitive) writes x, infix, y with the given precision, inside prefix / suffix.
+ B7-hex-iff-requested        the result is convert_to_hex(data) exactly when out_type::hex is configured.
+ B6-start-resets-buffer      (all three back ends) a geometry that decodes correctly on a fresh object also does after an abandoned
+        one: the start methods reset the accumulation buffer.
+ S1-text-nesting-grammar     WKT and GeoJSON: geometry keyword, brackets balanced, exactly one separator between siblings and none
+        dangling, coordinate pairs with the format's delimiters, formatted with the precision member the constructor fills.
+ B4-set_size-range-guard     the narrowing to uint32_t in set_size happens exactly for sizes <= UINT32_MAX (ORDERTYPE on the guard),
+        larger ones throw geometry_error.
  H1-hex-encoding             convert_to_hex appends lookup[(c >> 4) & 15] then lookup[c & 15] for all 256 byte values and
         the lookup table is "0123456789ABCDEF".
- N1-snprintf-length-bounded  double2string: the value returned by snprintf is used as index / count only where a test
-        against the buffer size dominates the use.   FIRES on today's tree under NDEBUG (see KNOWN).
+ N1-snprintf-length-bounded  double2string: the size argument of snprintf equals the extent of the destination array (from the array
+        type and the folded constant: not more -- overflow --, not less -- usable characters lost); the value returned by
+        snprintf is used as index into / byte count of that array only where a test 0 < len < size dominates the use.
+        The second part FIRES on today's tree under NDEBUG (see KNOWN).
  N2-zero-trim-needs-fraction double2string: the loop that strips trailing '0' characters runs only under a condition that the text has a
         fractional part (mentions the precision or a '.').   FIRES on today's tree (see KNOWN).
 
@@ -76,9 +78,9 @@ frozen OGC / RFC 7946 shape); agreement of the three encodings as values; projec
 import itertools
 
 from .. import ordertype as OT
-from ..c17_util import (POS, TOP, Model, ModelAbort, ModelError, ModelThrow, ModelUnknown, Obj, Str, Sym, abs_cond, address_taken, char_of,
-                        decl_of, delta_states, exit_t, is_abort_block, is_this, local_or_param, loop_header_block, lvalue_key, onode, origin,
-                        param_index, peel, pn, recv_field, short, string_of, this_field, writes)
+from ..c17_util import (POS, TOP, Model, ModelAbort, ModelError, ModelThrow, ModelUnknown, Obj, Str, Sym, abs_cond, address_taken, char_of, decl_of,
+                        delta_states, exit_t, is_abort_block, is_this, local_or_param, loop_header_block, onode, origin, param_index, peel, pn,
+                        recv_field, short, string_of, writes)
 from ..flow import describe_path, guards_of, path_search
 
 EXPLANATION = (
@@ -226,31 +228,79 @@ class FillShape:
                                 self.elem_roots.add(v['d'])
             self.step_nodes = [w[0] for w in writes(fn) if w[1] == ('var', begin) and w[2] == 'inc']
         else:
-            if len(fn.params) != 2:
-                self.err = 'expected (it, end) parameters'
-                return
-            it, end = fn.params[0]['d'], fn.params[1]['d']
+            # `for/while (A != B)` (or A < B): A is the cursor -- an iterator (parameter, or local started at <list>.begin()) or an
+            # index (local started at 0, bound <list>.size()); B the matching end
             c = pn(fn, fn.blocks[self.header]['cond'])
             ops = []
             if c is not None and c.get('k') == 'binop':
                 ops = [c['lhs'], c['rhs']]
-            elif c is not None and c.get('k') == 'call' and c.get('op') == '!=':
+            elif c is not None and c.get('k') == 'call' and c.get('op') in ('!=', '<'):
                 ops = list(c.get('args', []))
                 if c.get('recv') is not None:
                     ops = [c['recv']] + ops
-            if c is None or c.get('op') != '!=' or sorted(local_or_param(fn, o) or -1 for o in ops) != sorted([it, end]):
-                self.err = 'loop condition is not `it != end` over the two parameters'
+            if c is None or c.get('op') not in ('!=', '<') or len(ops) != 2:
+                self.err = 'loop condition is not a comparison of a cursor with its end'
                 return
-            self.elem_roots.add(it)
-            ws = [w for w in writes(fn) if w[1] == ('var', it)]
-            if any(w[2] != 'inc' for w in ws) or any(w[1] == ('var', end) for w in writes(fn)):
-                self.err = 'iterator parameters are modified other than by ++it'
+            cur = local_or_param(fn, ops[0])
+            if cur is None:
+                self.err = 'loop condition does not compare a variable with its end'
                 return
+            plist = [p['d'] for p in fn.params if 'NodeRefList' in p['tC'] or 'WayNodeList' in p['tC']]
+
+            def list_call(nid, names):
+                x = onode(fn, nid)
+                hops = 0
+                while x is not None and x.get('k') == 'construct' and len(x.get('args', [])) == 1 and hops < 3:
+                    x = onode(fn, x['args'][0])
+                    hops += 1
+                return x is not None and x.get('k') == 'call' and short(x.get('q', '')) in names and x.get('recv') is not None \
+                    and local_or_param(fn, x['recv']) in plist
+            ws = [w for w in writes(fn) if w[1] == ('var', cur)]
+            if any(w[2] != 'inc' for w in ws) or address_taken(fn, ('var', cur)):
+                self.err = 'the loop cursor is modified other than by ++'
+                return
+            if param_index(fn, cur) is not None:
+                end = local_or_param(fn, ops[1])
+                if len(fn.params) != 2 or end is None or param_index(fn, end) is None or end == cur or any(w[1] == ('var', end) for w in writes(fn)):
+                    self.err = 'loop condition is not `it != end` over the two iterator parameters'
+                    return
+                self.elem_roots.add(cur)
+            else:
+                dn, dv = decl_of(fn, cur)
+                if dv is None or not isinstance(dv.get('init'), int):
+                    self.err = 'the loop cursor has no initialiser'
+                    return
+                if fn.const_value(dv['init']) == 0 and list_call(ops[1], ('size',)):
+                    self.index = cur
+                elif list_call(dv['init'], ('begin', 'cbegin')) and list_call(ops[1], ('end', 'cend')):
+                    self.elem_roots.add(cur)
+                elif list_call(dv['init'], ('rbegin', 'crbegin')) and list_call(ops[1], ('rend', 'crend')):
+                    self.elem_roots.add(cur)
+                else:
+                    self.err = 'the loop does not run from the beginning to the end of the list parameter'
+                    return
+                self.plist = plist
             self.step_nodes = [w[0] for w in ws]
         if not self.step_nodes:
-            self.err = 'no iterator increment found'
+            self.err = 'no cursor increment found'
+            return
         self.step_ids = {n['id'] for n in self.step_nodes}
         self.body_entry = fn.blocks[self.header]['succs'][0]
+        self.hdr_ids = set(fn.blocks[self.header]['elems'])
+        self._bs = {}
+
+    index = None
+    plist = ()
+
+    def before_step(self, nid):
+        """the expression is evaluated before the cursor is advanced in its iteration (it still denotes the current element)"""
+        if nid not in self._bs:
+            ok = True
+            for s_ in self.step_ids:
+                if path_search(self.fn, s_, lambda e: e == nid, lambda e: e in self.hdr_ids) is not None:
+                    ok = False
+            self._bs[nid] = ok
+        return self._bs[nid]
 
     def cur_loc(self, nid, _depth=0):
         """peeled expression is <current element>.location(), or a loop-local constant copy of it"""
@@ -266,6 +316,12 @@ class FillShape:
             return False
         if n.get('k') != 'call' or n.get('q') != NODEREF_LOCATION or n.get('recv') is None:
             return False
+        if not self.before_step(n['id']):
+            return False
+        if self.index is not None:
+            r = pn(fn, n['recv'])
+            return r is not None and r.get('k') == 'call' and r.get('op') == '[]' and r.get('recv') is not None \
+                and local_or_param(fn, r['recv']) in self.plist and len(r.get('args', [])) == 1 and local_or_param(fn, r['args'][0]) == self.index
         rv = fn.root_var(n['recv'])
         return rv is not None and rv[0] == 'var' and rv[1] in self.elem_roots
 
@@ -296,37 +352,44 @@ def _fill_one(fb, R, fn, F, S, name, unique, emit_name, q):
 
     # ---------------------------------------------------------------- E1 count == emits (functions that return the count)
     if name != 'add_points':
-        rets = [n for n in fn.all_nodes() if n.get('k') == 'return']
-        cds = {local_or_param(fn, r.get('sub')) for r in rets} if rets else {None}
+        rets = [n for n in fn.all_nodes() if n.get('k') == 'return' and 'sub' in n]
         key = q + '#count==emits'
-        if len(cds) != 1 or None in cds:
-            R.bad('E1-count-equals-emits', key, site, 'the function does not return one local counter variable on every path')
-        else:
-            cd = cds.pop()
+        cds = {local_or_param(fn, r['sub']) for r in rets if fn.const_value(r['sub']) is None}
+        msg = None
+        if not rets or None in cds or len(cds) > 1:
+            msg = 'the function does not return one local counter variable (or a constant) on every path'
+        cd = next(iter(cds)) if len(cds) == 1 else None
+        incs, c0_at = set(), {}
+        if msg is None and cd is not None:
             dn, dv = decl_of(fn, cd)
             ws = [w for w in writes(fn) if w[1] == ('var', cd)]
-            okinit = dv is not None and isinstance(dv.get('init'), int) and fn.const_value(dv['init']) == 0
+            c0 = fn.const_value(dv['init']) if dv is not None and isinstance(dv.get('init'), int) else None
             okw = all(w[2] == 'inc' or (w[2] == 'compound' and w[0].get('op') == '+=' and fn.const_value(w[3]) == 1) for w in ws) \
                 and not address_taken(fn, ('var', cd))
-            incs = {w[0]['id'] for w in ws}
-            if not okinit or not okw:
-                R.bad('E1-count-equals-emits', key, site,
-                      'the returned counter %s must start at the constant 0 and only ever be incremented by one' % (dv['name'] if dv else '?'))
+            if c0 is None or not (0 <= c0 <= 2) or not okw:
+                msg = 'the returned counter %s must start at a constant and only ever be incremented by one' % (dv['name'] if dv else '?')
             else:
-                st = delta_states(fn, lambda n: (1 if n['id'] in emit_ids else 0) - (1 if n['id'] in incs else 0))
-                bad = None
-                for r in rets:
-                    s = st.get(r['id'])
-                    if s is None or s != frozenset([0]):
-                        bad = (r, s)
-                if bad is None and not emits:
-                    bad = (rets[0], 'no emit')
-                R.check(bad is None, 'E1-count-equals-emits', key, site if bad is None else fn.loc(bad[0]['id']),
-                        'on some path the number of %s calls differs from the number of increments of the returned counter %s '
-                        '(emits - increments can be %s at the return; >=3 means unbounded): the count handed to %s_finish would not match the '
-                        'encoded points' % (emit_name, dv['name'], sorted(bad[1]) if bad and not isinstance(bad[1], str) and bad[1] else bad and bad[1],
-                                            FILLS[name][2]),
-                        detail='%d emit site(s), %d increment site(s), delta {0} at every return' % (len(emits), len(incs)))
+                incs = {w[0]['id'] for w in ws}
+                c0_at = {dn['id']: c0}
+        if msg is None:
+            # D = emits - counter value, E = emits; at `return counter` D must be exactly 0, at `return <constant k>` E must be exactly k
+            D = delta_states(fn, lambda n: (1 if n['id'] in emit_ids else 0) - (1 if n['id'] in incs else 0) - c0_at.get(n['id'], 0))
+            E = delta_states(fn, lambda n: 1 if n['id'] in emit_ids else 0)
+            for r in rets:
+                k_ = fn.const_value(r['sub'])
+                st_ = (E if k_ is not None else D).get(r['id'])
+                want = frozenset([k_ if k_ is not None else 0])
+                if st_ != want:
+                    msg = ('on some path the number of %s calls differs from the returned count (%s can be %s at `%s`, required %s; 3 means '
+                           'unbounded): the count handed to %s_finish would not match the encoded points'
+                           % (emit_name, 'emits' if k_ is not None else 'emits - counter', sorted(st_) if st_ else st_, fn.expr(r['id'])[:40], sorted(want),
+                              FILLS[name][2]))
+                    site = fn.loc(r['id'])
+            if msg is None and not emits:
+                msg = 'nothing is emitted'
+        R.check(msg is None, 'E1-count-equals-emits', key, site, msg or '',
+                detail='%d emit site(s), %d increment site(s), emits == returned count at every return' % (len(emits), len(incs)))
+        site = fn.site
 
     # ---------------------------------------------------------------- E2 emitted value is the current element, right back-end method
     key = q + '#emit-arg'
@@ -346,12 +409,22 @@ def _fill_one(fb, R, fn, F, S, name, unique, emit_name, q):
             if dv is None:
                 msg = 'the projected value is neither the current element\'s location() nor a local holding it'
             else:
-                defs = [w for w in writes(fn) if w[1] == ('var', d)]
-                good = [w for w in defs if w[2] in ('opassign', 'assign') and S.cur_loc(w[3])]
+                # definitions of the local: assignments and its initialiser (when it has one that is not a constant sentinel)
+                defs = [(w[0]['id'], w[2], w[3]) for w in writes(fn) if w[1] == ('var', d)]
+                init = dv.get('init') if isinstance(dv.get('init'), int) else None
+                ini = pn(fn, init) if init is not None else None
+                init_is_sentinel = ini is None or (ini.get('k') == 'construct' and all('cv' in (pn(fn, a_) or {}) for a_ in ini.get('args', [])))
+                if not init_is_sentinel:
+                    defs.append((dn['id'], 'assign', init))
+                good = [w for w in defs if w[1] in ('opassign', 'assign') and S.cur_loc(w[2])]
+
+                def same_iteration(defid):
+                    in_loop_def = fn.in_range(defid, S.loop['b'], S.loop['e']) and S.header in fn.dominators().get(fn.positions()[defid][0], ())
+                    in_loop_emit = fn.in_range(e['id'], S.loop['b'], S.loop['e'])
+                    return in_loop_def or not in_loop_emit      # a definition before the loop serves only an emit before the loop
                 if len(defs) != len(good) or not good or address_taken(fn, ('var', d)):
                     msg = 'local %s is written by something other than `%s = <current element>.location()`' % (dv['name'], dv['name'])
-                elif not any(fn.elem_dominates(w[0]['id'], e['id']) and fn.in_range(w[0]['id'], S.loop['b'], S.loop['e'])
-                             and S.header in fn.dominators().get(fn.positions()[w[0]['id']][0], ()) for w in good):
+                elif not any(fn.elem_dominates(w[0], e['id']) and same_iteration(w[0]) for w in good):
                     msg = ('the emit projects local %s, but no assignment `%s = <current element>.location()` of the same iteration dominates it '
                            '(the previous element would be emitted)' % (dv['name'], dv['name']))
                 else:
@@ -410,8 +483,11 @@ def _fill_one(fb, R, fn, F, S, name, unique, emit_name, q):
                 and not address_taken(fn, ('var', L))
             if okw:
                 lids = {w[0]['id'] for w in lw}
+                ldn, ldv = decl_of(fn, L)
+                if ldv is not None and isinstance(ldv.get('init'), int) and S.cur_loc(ldv['init']):
+                    lids.add(ldn['id'])      # started from the first element (which is then emitted before the loop)
                 st = delta_states(fn, lambda n: (1 if n['id'] in emit_ids else 0) - (1 if n['id'] in lids else 0))
-                ends = list(S.step_ids) + [n['id'] for n in fn.all_nodes() if n.get('k') == 'return']
+                ends = [fn.blocks[S.header]['elems'][0]] + [n['id'] for n in fn.all_nodes() if n.get('k') == 'return']
                 okw = all(st.get(e) == frozenset([0]) for e in ends if e in st)
             R.check(okw, 'E3-skip-only-consecutive-duplicates', q + '#compares-with-last-emitted', fn.loc(dups[0][2]),
                     'the duplicate test compares the current location with a local that does not hold exactly the location emitted last '
@@ -422,14 +498,14 @@ def _fill_one(fb, R, fn, F, S, name, unique, emit_name, q):
 
     def edge_ok(b, idx, s):
         return (b, idx) not in dup_edges
-    w = path_search(fn, S.body_entry, lambda x: (not isinstance(x, tuple)) and x in S.step_ids, lambda x: x in emit_ids, edge_ok, from_block_start=True)
+    w = path_search(fn, S.body_entry, lambda x: (not isinstance(x, tuple)) and x in S.hdr_ids, lambda x: x in emit_ids, edge_ok, from_block_start=True)
     R.check(w is None, 'E3-skip-only-consecutive-duplicates', key, site,
             'an element can pass through the loop body without being emitted%s: %s'
             % (' although it differs from the previous one' if unique else ' (mode "all" must emit every node)', describe_path(fn, w)),
             detail='unique' if unique else 'all')
     # one step per iteration, no second emit per iteration
     for e in emits:
-        w2 = path_search(fn, e['id'], lambda x: (not isinstance(x, tuple)) and x in emit_ids, lambda x: x in S.step_ids)
+        w2 = path_search(fn, e['id'], lambda x: (not isinstance(x, tuple)) and x in emit_ids, lambda x: x in S.hdr_ids)
         R.check(w2 is None, 'E3-skip-only-consecutive-duplicates', q + '#one-emit-per-element', fn.loc(e['id']),
                 'an element can be emitted twice within one iteration: %s' % describe_path(fn, w2))
 
@@ -455,7 +531,27 @@ def _fill_one(fb, R, fn, F, S, name, unique, emit_name, q):
             if x is not None and x.get('k') == 'binop' and x.get('op') in ('&&', '||'):
                 compound = True
         is_default = is_const_loc and not init.get('args')
-        R.check(not is_const_loc or bypass is not None or compound, 'E4-first-element-never-skipped',
+        # ... or (undefined sentinel only) an invalid current location cannot reach the comparison: it was projected / read through the
+        # checked accessors before, or the comparison is guarded by a validity test of the current location
+        validated = False
+        if is_default:
+            for d_ in dups:
+                els_ = fn.blocks[d_[0]]['elems']
+                ref_ = els_[-1] if els_ else d_[2]      # the comparison itself (last element of the deciding block)
+                for n_ in fn.all_nodes():
+                    if n_.get('k') != 'call' or not fn.in_range(n_['id'], S.loop['b'], S.loop['e']) or not fn.elem_dominates(n_['id'], ref_):
+                        continue
+                    if proj_call_arg(fn, F, n_['id']) is not None and S.cur_loc(proj_call_arg(fn, F, n_['id'])):
+                        validated = True
+                    if n_.get('q') in (LOC + '::lon', LOC + '::lat') and n_.get('recv') is not None and S.cur_loc(n_['recv']):
+                        validated = True
+                for (g, sense, _b) in guards_of(fn, ref_):
+                    gn = pn(fn, g)
+                    if gn is not None and gn.get('k') == 'call' and gn.get('recv') is not None and S.cur_loc(gn['recv']):
+                        nm_ = short(gn.get('q', ''))
+                        if (nm_ in ('valid', 'is_valid', 'is_defined', '(conv)', 'operator bool') and sense) or (nm_ == 'is_undefined' and not sense):
+                            validated = True
+        R.check(not is_const_loc or bypass is not None or compound or validated, 'E4-first-element-never-skipped',
                 q + ('#sentinel' if (is_default or not is_const_loc) else '#sentinel-constant'), fn.loc(dn['id']) if dn else site,
                 'the duplicate filter starts from a constant osmium::Location (%s; default = undefined) and every element, including the first, '
                 'is compared with it: a first element with exactly that location is dropped silently -- for the undefined location instead of '
@@ -496,7 +592,7 @@ def wrapper_rules(fb, R):
                     ok, msg = False, 'must pass its parameter(s) on unchanged'
             if ok and fn.retC != 'void':
                 rets = [n for n in fn.all_nodes() if n.get('k') == 'return']
-                if not rets or any(peel(fn, r.get('sub')) != good[0]['id'] for r in rets):
+                if not rets or any(origin(fn, r.get('sub')) != good[0]['id'] for r in rets):
                     ok, msg = False, 'must return the result of the back-end call'
             R.check(ok, 'W1-wrapper-forwards', q + '#forwards', fn.site, '%s %s' % (q, msg))
 
@@ -722,11 +818,11 @@ def protocol_rules(fb, R):
                 c = calls[0]
                 a = c.get('args', [])
                 ok = len(a) == 3 and local_or_param(fn, a[1]) == fn.params[1]['d'] and local_or_param(fn, a[2]) == fn.params[2]['d']
-                l = pn(fn, a[0]) if a else None
+                l = onode(fn, a[0]) if a else None
                 ok = ok and l is not None and l.get('k') == 'call' and l.get('q') == 'osmium::Way::nodes' \
                     and local_or_param(fn, l.get('recv')) == fn.params[0]['d']
                 rets = [n for n in fn.all_nodes() if n.get('k') == 'return']
-                ok = ok and bool(rets) and all(peel(fn, r.get('sub')) == c['id'] for r in rets)
+                ok = ok and bool(rets) and all(origin(fn, r.get('sub')) == c['id'] for r in rets)
             R.check(ok, 'T1-create-protocol', q + '#way-overload-forwards', fn.site,
                     '%s(const Way&, un, dir) must return %s(way.nodes(), un, dir) with both options passed on unchanged' % (name, name))
         if not ways:
@@ -750,7 +846,7 @@ def _counter_updates(fn):
     for (n, key, kind, rhs) in writes(fn):
         if key[0] != 'var':
             continue
-        if kind == 'inc':
+        if kind == 'inc' or (kind == 'compound' and n.get('op') == '+=' and (fn.const_value(rhs) or 0) >= 1):
             upd[n['id']] = (key[1], 'inc')
         elif kind == 'assign':
             v = fn.const_value(rhs)
@@ -758,17 +854,6 @@ def _counter_updates(fn):
         else:
             upd[n['id']] = (key[1], TOP)
     return upd
-
-
-def _int_locals(fn):
-    out = {}
-    for n in fn.all_nodes():
-        if n.get('k') == 'decl':
-            for v in n['vars']:
-                if OT.domain_of_type(v['tC'], True) not in (None, 'bool') and isinstance(v.get('init'), int):
-                    c = fn.const_value(v['init'])
-                    out[v['d']] = (n['id'], ('c', c) if c is not None else ('expr', v['init']))
-    return out
 
 
 def _line_protocol(fb, R, fn, F, kind, q):
@@ -860,47 +945,82 @@ def _enum_names(fb, q):
     return {int(x['value']): x['name'] for x in e['enumerators']}
 
 
-def _constraints(fn, nid, pdecls):
-    """{param decl: set of values the parameter must have for element nid to execute} from if-guards and switch case labels.
-    Returns None when a guard on one of the parameters has a shape that is not understood."""
-    out = {}
-    for (c, sense, _b) in guards_of(fn, nid):
-        cn = pn(fn, c)
-        if cn is None:
-            continue
-        if cn.get('k') == 'binop' and cn.get('op') in ('==', '!='):
-            for (a, b) in ((cn['lhs'], cn['rhs']), (cn['rhs'], cn['lhs'])):
-                d = local_or_param(fn, a)
-                v = fn.const_value(b)
-                if d in pdecls and v is not None:
-                    eq = (cn['op'] == '==') == bool(sense)
-                    out.setdefault(d, []).append(('eq' if eq else 'ne', v))
-        elif any(local_or_param(fn, x) in pdecls for x in fn.subtree(c) if fn.nodes[x].get('k') == 'var') \
-                and not (cn.get('k') == 'binop' and cn.get('op') in ('&&', '||')) and not (cn.get('k') == 'unop' and cn.get('op') == '!'):
-            return None
-    # switch case labels: a dominating block that carries a case label and is entered only from the switch block
-    pos = fn.positions()
-    if nid not in pos:
+def _eval_bool(fn, nid, env):
+    """Concrete truth of a condition over env {decl id: integer}; None when it depends on anything else."""
+    n = pn(fn, nid)
+    if n is None:
         return None
-    b0 = pos[nid][0]
-    preds = fn.preds()
-    for d in fn.dominators().get(b0, ()):  # includes b0
-        lab = fn.blocks[d].get('label') or {}
-        if 'case' not in lab and not lab.get('default'):
-            continue
-        ps = preds.get(d, [])
-        sw = [p for p in ps if fn.blocks[p].get('termcls') == 'SwitchStmt']
-        if len(sw) != 1 or len(ps) != 1:
-            return None   # fall-through into the label: not understood
-        sd = local_or_param(fn, fn.blocks[sw[0]].get('cond'))
-        if sd not in pdecls:
-            continue
-        if lab.get('default'):
+    k = n.get('k')
+    if k == 'unop' and n.get('op') == '!':
+        r = _eval_bool(fn, n['sub'], env)
+        return None if r is None else (not r)
+    if k == 'binop' and n.get('op') in ('&&', '||'):
+        a, b = _eval_bool(fn, n['lhs'], env), _eval_bool(fn, n['rhs'], env)
+        if n['op'] == '&&':
+            if a is False or b is False:
+                return False
+            return True if (a is True and b is True) else None
+        if a is True or b is True:
+            return True
+        return False if (a is False and b is False) else None
+    if k == 'binop' and n.get('op') in ('==', '!=', '<', '<=', '>', '>='):
+        vals = []
+        for x in (n['lhs'], n['rhs']):
+            d = local_or_param(fn, x)
+            v = env.get(d) if d is not None and d in env else fn.const_value(x)
+            vals.append(v)
+        if None in vals:
             return None
-        v = fn.const_value(lab['case'])
-        if v is None:
+        a, b = vals
+        return {'==': a == b, '!=': a != b, '<': a < b, '<=': a <= b, '>': a > b, '>=': a >= b}[n['op']]
+    if k == 'condop':
+        c = _eval_bool(fn, n['cond'], env)
+        if c is None:
             return None
-        out.setdefault(sd, []).append(('eq', v))
+        return _eval_bool(fn, n['then'] if c else n['else'], env)
+    if k == 'var':
+        d = local_or_param(fn, nid)
+        if d in env:
+            return bool(env[d])
+    c = fn.const_value(nid)
+    return None if c is None else bool(c)
+
+
+def _reachable_calls(fn, env):
+    """Call nodes in the blocks that can execute when the variables in env have the given values (branches that depend only
+    on them are followed exactly, switch statements over them select their case; everything else is followed both ways)."""
+    seen = set()
+    work = [fn.entry]
+    out = []
+    while work:
+        b = work.pop()
+        if b in seen:
+            continue
+        seen.add(b)
+        blk = fn.blocks[b]
+        for e in blk['elems']:
+            n = fn.nodes[e]
+            if n.get('k') == 'call':
+                out.append(n)
+        if is_abort_block(fn, b) or any(fn.nodes[e].get('k') in ('throw', 'return') for e in blk['elems']):
+            continue
+        succs = blk['succs']
+        if blk.get('termcls') == 'SwitchStmt' and 'cond' in blk:
+            d = local_or_param(fn, blk['cond'])
+            if d in env:
+                hit = [s for s in succs if s is not None and 'case' in (fn.blocks[s].get('label') or {})
+                       and fn.const_value(fn.blocks[s]['label']['case']) == env[d]]
+                other = [s for s in succs if s is not None and 'case' not in (fn.blocks[s].get('label') or {})]
+                work.extend(hit if hit else other)
+                continue
+            work.extend(s for s in succs if s is not None)
+            continue
+        if 'cond' in blk and len(succs) == 2:
+            r = _eval_bool(fn, blk['cond'], env)
+            idxs = (0, 1) if r is None else ((0,) if r else (1,))
+            work.extend(succs[i] for i in idxs if succs[i] is not None)
+            continue
+        work.extend(s for s in succs if s is not None)
     return out
 
 
@@ -926,37 +1046,27 @@ def dispatch_rules(fb, R):
             raise _Broken('%s: ambiguous parameter roles' % f.full)
         return (pl[0] if pl else None, pu[0] if pu else None, pd[0] if pd else None)
 
-    def collect(f, kind, us0, ds0, depth, out):
-        """fill call sites reachable from f (through helpers), each with the set of (use_nodes, direction) values it runs under."""
+    def collect(f, kind, uval, dval, depth, out):
+        """fill call sites that can execute in f (and the helpers it calls) when use_nodes == uval and direction == dval."""
         pl, pu, pd = roles(f)
-        for n in f.all_nodes():
-            if n.get('k') != 'call':
-                continue
+        env = {}
+        if pu is not None:
+            env[pu] = uval
+        if pd is not None:
+            env[pd] = dval
+        for n in _reachable_calls(f, env):
             nm = self_call(f, n)
             if nm is None:
                 continue
-            is_fill = nm in FILLS and FILLS[nm][2] == kind
-            h = None
-            if not is_fill:
-                if nm in FILLS or nm.startswith('create_') or nm.endswith(('_start', '_finish')):
-                    continue
-                cands = [g for g in fb.by_usr.get(n.get('u'), []) if g.has_cfg and g.clsT == f.clsT]
-                h = cands[0] if cands else None
-                if h is None:
-                    continue
-            cons = _constraints(f, n['id'], {d for d in (pu, pd) if d is not None})
-            if cons is None:
-                raise _Broken('%s: guard shape of the call to %s not understood' % (f.full, nm))
-
-            def vals(d, names, base):
-                poss = {k for k, v in names.items() if v in base}
-                for (op, v) in cons.get(d, []) if d is not None else []:
-                    poss = {x for x in poss if (x == v) == (op == 'eq')}
-                return {names[x] for x in poss}
-            us, ds = vals(pu, un_names, us0), vals(pd, dir_names, ds0)
-            if is_fill:
-                out.append((f, n, nm, us, ds, pl))
+            if nm in FILLS and FILLS[nm][2] == kind:
+                out.append((f, n, nm, pl))
                 continue
+            if nm in FILLS or nm.startswith('create_') or nm.endswith(('_start', '_finish')):
+                continue
+            cands = [g for g in fb.by_usr.get(n.get('u'), []) if g.has_cfg and g.clsT == f.clsT]
+            if not cands:
+                continue
+            h = cands[0]
             if depth >= 3:
                 raise _Broken('%s: helper calls nested too deeply' % f.full)
             # options / list handed to the helper must be the caller's own, unchanged
@@ -968,7 +1078,7 @@ def dispatch_rules(fb, R):
                 a = n.get('args', [])
                 if i is None or i >= len(a) or mine is None or local_or_param(f, a[i]) != mine:
                     raise _Broken('%s: helper %s does not receive the %s parameter unchanged' % (f.full, nm, what))
-            collect(h, kind, us if hu is not None or pu is not None else us0, ds if hd is not None or pd is not None else ds0, depth + 1, out)
+            collect(h, kind, uval, dval, depth + 1, out)
 
     for kind in ('linestring', 'polygon'):
         name = 'create_' + kind
@@ -979,16 +1089,15 @@ def dispatch_rules(fb, R):
                 pl0, pu0, pd0 = roles(fn)
                 if pl0 is None or pu0 is None or pd0 is None:
                     raise _Broken('%s: expected (list, use_nodes, direction) parameters' % fn.full)
-                sites_all = []
-                collect(fn, kind, {'unique', 'all'}, {'forward', 'backward'}, 0, sites_all)
+                found = {}
+                for uval, u in un_names.items():
+                    for dval, dr in dir_names.items():
+                        sites_ = []
+                        collect(fn, kind, uval, dval, 0, sites_)
+                        found[(u, dr)] = sites_
             except _Broken as e:
                 R.broken(str(e))
                 continue
-            found = {}
-            for (f, n, nm, us, ds, pl) in sites_all:
-                for u in us:
-                    for dr in ds:
-                        found.setdefault((u, dr), []).append((f, n, nm, pl))
             for u in ('unique', 'all'):
                 for dr in ('forward', 'backward'):
                     key = '%s#%s/%s' % (q, u, dr)
@@ -1134,8 +1243,10 @@ def threshold_rules(fb, R):
         # the counter the rejection is based on: an integer local that starts at 0 and is only ever incremented, tested on the way to a
         # geometry_error throw.  (That it counts rings -- no throw once a ring was emitted, no finish without one -- is T1's part.)
         incs = {}
-        for (n, lk, kind, _rhs) in writes(fn):
+        for (n, lk, kind, rhs_) in writes(fn):
             if lk[0] == 'var':
+                if kind == 'compound' and n.get('op') == '+=' and (fn.const_value(rhs_) or 0) >= 1:
+                    kind = 'inc'
                 incs.setdefault(lk[1], []).append(kind)
         counter = None
         for t in [n for n in fn.all_nodes() if _geom_error_throw(n)]:
@@ -1160,10 +1271,27 @@ COORD = 'osmium::geom::Coordinates'
 LOC_READERS = ('lon', 'lat', 'lon_without_check', 'lat_without_check', 'x', 'y')
 
 
-def _loc_reads(fn, nid, pdecl):
-    """names of osmium::Location accessors called on parameter pdecl inside the subtree of nid."""
+def _deep_subtree(fn, nid, depth=0, seen=None):
+    """subtree of nid, continued into the initialisers of single-definition locals it mentions (named sub-expressions)."""
+    seen = set() if seen is None else seen
     out = []
     for x in fn.subtree(nid):
+        if x in seen:
+            continue
+        seen.add(x)
+        out.append(x)
+        n = fn.nodes[x]
+        if n.get('k') == 'var' and n.get('vk') == 'local' and depth < 6:
+            o = origin(fn, x)
+            if o is not None and o != x:
+                out.extend(_deep_subtree(fn, o, depth + 1, seen))
+    return out
+
+
+def _loc_reads(fn, nid, pdecl):
+    """names of osmium::Location accessors called on parameter pdecl inside the (deep) subtree of nid."""
+    out = []
+    for x in _deep_subtree(fn, nid):
         n = fn.nodes[x]
         if n.get('k') == 'call' and n.get('q', '').startswith(LOC + '::') and n.get('recv') is not None \
                 and local_or_param(fn, n['recv']) == pdecl:
@@ -1189,9 +1317,9 @@ def accessor_rules(fb, R):
             rets = [n for n in fn.all_nodes() if n.get('k') == 'return']
             ok, msg = bool(rets), 'no return'
             for r in rets:
-                c = pn(fn, r.get('sub'))
+                c = onode(fn, r.get('sub'))
                 while c is not None and c.get('k') == 'construct' and c.get('q') == COORD + '::(ctor)' and len(c.get('args', [])) == 1:
-                    c = pn(fn, c['args'][0])
+                    c = onode(fn, c['args'][0])
                 if c is None or c.get('k') != 'construct' or c.get('q') != COORD + '::(ctor)' or len(c.get('args', [])) != 2:
                     ok, msg = False, 'does not return Coordinates{x, y}'
                     break
@@ -1914,78 +2042,114 @@ def hex_rules(fb, R):
         R.check(msg is None, 'H1-hex-encoding', key, fn.site, 'convert_to_hex: %s' % msg, detail='both digit indices evaluated for all byte values')
 
 
+SNPRINTF = ('snprintf', 'std::snprintf', '_snprintf')
+
+
+def _fixed_char_array(fn, nid):
+    """(decl id, extent) when the expression denotes a local array of char (char[N] / std::array<char, N>.data()), else (None, None)."""
+    n = onode(fn, nid)
+    if n is not None and n.get('k') == 'call' and short(n.get('q', '')) in ('data', 'begin') and n.get('recv') is not None:
+        n = onode(fn, n['recv'])
+    if n is None or n.get('k') != 'var' or n.get('vk') != 'local':
+        return None, None
+    dn, dv = decl_of(fn, n['d'])
+    t = (dv or {}).get('tC', '').replace('const ', '')
+    ext = None
+    if t.startswith('char[') and t.endswith(']'):
+        ext = t[5:-1]
+    elif t.startswith('std::array<char,') and t.endswith('>'):
+        ext = t[len('std::array<char,'):-1].strip()
+    try:
+        return n['d'], int(ext)
+    except (TypeError, ValueError):
+        return None, None
+
+
+def _mentions(fn, nid, d):
+    return any(fn.nodes[x].get('k') == 'var' and fn.nodes[x].get('d') == d for x in fn.subtree(nid))
+
+
 def snprintf_rules(fb, R):
     q = 'osmium::double2string'
     key = q + '#snprintf-result'
-    fns = [f for f in fb.fns(q) if any(n.get('k') == 'call' and (n.get('q') or n.get('name')) in ('snprintf', 'std::snprintf', '_snprintf')
-                                       for n in f.all_nodes())]
+    fns = [f for f in fb.fns(q) if any(n.get('k') == 'call' and (n.get('q') or n.get('name')) in SNPRINTF for n in f.all_nodes())]
     if not fns:
         R.bad('N1-snprintf-length-bounded', key, q, 'no double2string body that calls snprintf was found')
     for fn in fns:
-        calls = [n for n in fn.all_nodes() if n.get('k') == 'call' and (n.get('q') or n.get('name')) in ('snprintf', 'std::snprintf', '_snprintf')]
+        calls = [n for n in fn.all_nodes() if n.get('k') == 'call' and (n.get('q') or n.get('name')) in SNPRINTF]
+        nfixed = 0
         for c in calls:
             a = c.get('args', [])
-            bd = local_or_param(fn, a[0]) if a else None
-            dn, dv = decl_of(fn, bd) if bd is not None else (None, None)
+            bd, arr = _fixed_char_array(fn, a[0]) if a else (None, None)
+            if bd is None:
+                continue        # formats into a dynamically sized destination: nothing to decide here
+            nfixed += 1
             size = fn.const_value(a[1]) if len(a) > 1 else None
-            arr = None
-            if dv is not None and dv['tC'].startswith('char[') and dv['tC'].endswith(']'):
-                try:
-                    arr = int(dv['tC'][5:-1])
-                except ValueError:
-                    arr = None
-            if arr is None or size is None:
-                R.broken('%s: snprintf buffer / size argument not understood' % fn.full)
+            if size is None:
+                R.broken('%s: size argument of snprintf is not a constant' % fn.full)
                 continue
-            R.check(size <= arr, 'N1-snprintf-length-bounded', q + '#size-arg-within-buffer', fn.loc(c['id']),
-                    'snprintf is told the buffer has %d bytes but it has %d' % (size, arr))
-            # the result variable
-            pm = fn.parent_map()
+            # the size handed to snprintf is the extent of the destination array: larger overflows, smaller wastes usable characters
+            R.check(size == arr, 'N1-snprintf-length-bounded', q + '#size-arg-equals-buffer-extent', fn.loc(c['id']),
+                    'snprintf is told the buffer has %d bytes but the array has %d: %s' % (
+                        size, arr, 'it can write past the end' if size > arr else
+                        'numbers of %d..%d characters, which fit, are truncated (e.g. a Web Mercator x of lon -180 at precision %d)' % (size, arr - 1, size - 10)))
+            # the result variable: initialised from / assigned the call
             ld = None
             for n in fn.all_nodes():
                 if n.get('k') == 'decl':
                     for v in n['vars']:
                         if isinstance(v.get('init'), int) and peel(fn, v['init']) == c['id']:
                             ld = v['d']
+            for (n, lk, kind, rhs) in writes(fn):
+                if lk[0] == 'var' and kind == 'assign' and rhs is not None and peel(fn, rhs) == c['id']:
+                    ld = lk[1]
             if ld is None:
                 R.bad('N1-snprintf-length-bounded', key, fn.loc(c['id']), 'the result of snprintf (number of characters needed) is discarded')
                 continue
+            # uses of the result as index into / byte count of that array
             uses = []
             for n in fn.all_nodes():
-                if n.get('k') == 'index' and any(fn.nodes[x].get('k') == 'var' and fn.nodes[x].get('d') == ld for x in fn.subtree(n['idx'])):
-                    uses.append(n)
-                if n.get('k') == 'call' and n.get('q') in ('std::copy_n', 'std::copy', 'memcpy', 'std::memcpy') and \
-                        any(local_or_param(fn, x) == ld for x in n.get('args', [])):
-                    uses.append(n)
+                if n.get('k') == 'index' and _mentions(fn, n['idx'], ld):
+                    rv = fn.root_var(n['base'])
+                    if rv is not None and rv[0] == 'var' and rv[1] == bd:
+                        uses.append(n)
+                if n.get('k') == 'call' and n.get('args') and any(_mentions(fn, x, ld) for x in n['args']):
+                    srcs = list(n['args']) + ([n['recv']] if n.get('recv') is not None else [])
+                    if any((fn.root_var(x) or (None, None))[1] == bd for x in srcs) and n['id'] != c['id']:
+                        uses.append(n)
             badu = None
             for u in uses:
-                rel = [(g, s, b) for (g, s, b) in guards_of(fn, u['id'])
-                       if any(fn.nodes[x].get('k') == 'var' and fn.nodes[x].get('d') == ld for x in fn.subtree(g)) and
+                rel = [(g, s_, b_) for (g, s_, b_) in guards_of(fn, u['id']) if _mentions(fn, g, ld) and
                        not any(fn.nodes[x].get('k') == 'index' for x in fn.subtree(g))]
 
                 def atoms(f, n, ld=ld):
                     if n.get('k') == 'var' and n.get('d') == ld:
                         return ('n', OT.INT32)
                     return None
-                try:
-                    progs = [(OT.compile_expression(fb, fn, g, atoms), s) for (g, s, _b) in rel]
-                except OT.Inexact:
-                    progs = []
-                consts = {0, 1, size, size - 1}
-                for p, _s in progs:
-                    consts |= set(p.consts)
+                progs = []
+                for (g, s_, _b) in rel:
+                    try:
+                        progs.append((OT.compile_expression(fb, fn, g, atoms), s_))
+                    except OT.Inexact:
+                        pass        # a guard that is not a plain comparison does not count
+                consts = {0, 1, size, size - 1, arr, arr - 1}
+                for p_, _s in progs:
+                    consts |= set(p_.consts)
                 implied = bool(progs)
                 for w in OT.worlds({'n': OT.INT32}, consts):
-                    if all(OT.run(p, w).as_bool() == bool(s) for (p, s) in progs) and not (w.gt('n', 0) and w.lt('n', size)):
+                    if all(OT.run(p_, w).as_bool() == bool(s_) for (p_, s_) in progs) and not (w.gt('n', 0) and w.lt('n', min(size, arr))):
                         implied = False
                 if not implied:
                     badu = u
                     break
-            R.check(badu is None and bool(uses), 'N1-snprintf-length-bounded', key, fn.loc(badu['id']) if badu else fn.loc(c['id']),
+            R.check(badu is None, 'N1-snprintf-length-bounded', key, fn.loc(badu['id']) if badu else fn.loc(c['id']),
                     'the value returned by snprintf is used as index / byte count (`%s`) without a test that it is > 0 and < %d that survives '
                     'in this configuration: a number that needs %d or more characters is truncated and the buffer is read past its end'
                     % (fn.expr(badu['id'])[:60] if badu else '', size, size),
-                    detail='%d uses of the snprintf result, all dominated by 0 < len < %d' % (len(uses), size))
+                    detail='%d uses of the snprintf result with the fixed buffer, all dominated by 0 < len < %d' % (len(uses), size))
+        if calls and not nfixed:
+            R.ok('N1-snprintf-length-bounded', key, fn.site, detail='snprintf formats into dynamically sized storage only')
+            R.ok('N1-snprintf-length-bounded', q + '#size-arg-equals-buffer-extent', fn.site, detail='no fixed-size destination')
 
 
 def trim_rules(fb, R):
